@@ -171,6 +171,11 @@ func exportPoint(rig *Rig, sc *Scenario, s *State, fresh *State) c19Result {
 	if !bytes.Equal(bz, bz2) {
 		add("exported-genesis-reads-back-from-json", "differs", "JSON round trip changes the genesis")
 	}
+	// the new chain starts where the old one stopped: same height and block time (a genesis time before the export would
+	// re-open windows and periods that had already ended)
+	freshNow := *fresh
+	freshNow.Height, freshNow.Time = s.Height, s.Time
+	fresh = &freshNow
 	fw := rig.Restore(fresh)
 	if p, trc := tryPanic(func() { service.InitGenesis(fw.ctx, rig.sk, gs2) }); p != "" {
 		add("exported-genesis-imports-into-a-fresh-chain", panicClass(p, trc), "InitGenesis panics: "+p)
